@@ -148,7 +148,14 @@ public:
 
   void append(const byte* data, usize size)
   {
-    resize(bufferEnd - bufferStart + size);
+    if(data >= bufferStart && data < bufferEnd)
+    { // data lies in this buffer: resize may move or release these bytes, find them again afterwards
+      usize offset = data - bufferStart;
+      resize(bufferEnd - bufferStart + size);
+      data = bufferStart + offset;
+    }
+    else
+      resize(bufferEnd - bufferStart + size);
     Memory::copy(bufferEnd - size, data, size);
     if(buffer)
       *bufferEnd = 0;
